@@ -932,6 +932,13 @@ def check_adaptors(ctx, tu):
                 good = [('op', '=', (('index', ('mem', this, 'value'), ('call', 'rkcommon::array3D::longIndex', None, (where, z))), val)) for z in szs]
                 good += [('op', '=', (('index', ('mem', this, 'value'), ('call', 'rkcommon::array3D::ActualArray3D::indexOf', this, (where,))), val))]
                 swapped = [('op', '=', (('index', ('mem', this, 'value'), ('call', 'rkcommon::array3D::longIndex', None, (z, where))), val)) for z in szs]
+                # indexOf(where) appears inlined (non-virtual single-return member); its formula is decided by R-C17-3
+                for g in tu.functions.values():
+                    if g.get('recid') == f.get('recid') and g['q'].endswith('::indexOf') and len(g['params']) == 1:
+                        e2, st2, rt2 = fn_statements(tu, g)
+                        if not st2 and len(rt2) == 1:
+                            e2[g['params'][0]['id']] = where
+                            good.append(('op', '=', (('index', ('mem', this, 'value'), drop_casts(nf(tu, rt2[0], e2))), val)))
                 if t in good:
                     ctx.ok(R, inst, 'value[longIndex(where, size())] = t', tu.fn_loc(f))
                 elif t in swapped:
